@@ -37,10 +37,12 @@ Definition big_int64 (z : Z) : Z :=
 Definition to_byte (z : Z) : Z := z mod 256.
 
 (* ---- big-endian bytes ---- *)
+(* the low byte is z mod 256 and the rest z / 256, written with shift/mask (Proofs.be_fixed_S) because
+   they are linear-time in vm_compute *)
 Fixpoint be_fixed (len : nat) (z : Z) : bytes :=
   match len with
   | O => []
-  | S l => be_fixed l (z / 256) ++ [n2b (Z.to_N (z mod 256))]
+  | S l => be_fixed l (Z.shiftr z 8) ++ [n2b (Z.to_N (Z.land z 255))]
   end.
 (* big.Int.SetBytes / ModNScalar.SetByteSlice before reduction *)
 Definition of_be (l : bytes) : Z := fold_left (fun acc b => acc * 256 + Z.of_N (b2n b)) l 0.
